@@ -1,4 +1,5 @@
 import PwVerif.Proofs.Macro
+import PwVerif.Proofs.BridgeC09C01
 /-!
 # C09 — A macro behaves exactly like its sub-graph, behind synchronized by-value IO
 
@@ -79,6 +80,76 @@ theorem C09_by_value_rerun (n : Node) (σ σ1 : St) (k : Nat) (v : Val) (hwf : W
       · simp [he, hv]
       · simp [he, hin i hi])
   exact ⟨σ2, h1, fun o ho => by rw [← hinp]; exact h4 o ho⟩
+
+/-! ## (a') … under every schedule and executor assignment (bridge to C01, nothing re-proved) -/
+
+open PwVerif.BridgeC09C01 in
+/-- Take the scheduler of one macro level as C01 models it: ANY wired graph `d` whose data connections
+are the creator's (`Wired`: children to kept UI nodes and earlier siblings), with ANY order of `ran`
+connections and starting nodes, ANY assignment of children to executors (`d.onExec`), and ANY schedule
+of starts, deliveries and executor completions that has exited. Interpreting each child by its
+denotation (a nested macro by the composition of ITS body — to which this same theorem applies one level
+down, so the statement holds at every depth), every macro output read off the final scheduler state is
+the plain composition `denote` — the value `C09_inline` gives for the creation-order run. -/
+theorem C09_inline_any_schedule {cfg : Exec.Cfg} {d : Exec.Dag} {s : Exec.S} (wf : Exec.WF d)
+    (rank : Nat → Nat) (hrank : ∀ i j, j ∈ d.deps i → rank j < rank i) (hnf : C01.NoFaults d)
+    (h : C01.Reach cfg d s) (hex : s.phase = .exited)
+    (args : List Arg) (body : List Node) (rets : List Ret) (oh : List Nat) (srcs : List Src)
+    (hw : Wired d (kept body rets) body) (hwf : WF (.mac args body rets oh srcs))
+    (hmem : ∀ j, j < body.length → d.member j) (a : Nat → Val) (r : Nat) (x : Ret) (hr : rets[r]? = some x) :
+    retOf d (levelSem body a) a s.out x = denote (.mac args body rets oh srcs) a r :=
+  mac_any_schedule wf rank hrank hnf h hex args body rets oh srcs hw hwf hmem a r x hr
+
+open PwVerif.BridgeC09C01 in
+/-- … hence equal to what the macro model's own run leaves on the macro output, after any history -/
+theorem C09_run_eq_any_schedule {cfg : Exec.Cfg} {d : Exec.Dag} {s : Exec.S} (wf : Exec.WF d)
+    (rank : Nat → Nat) (hrank : ∀ i j, j ∈ d.deps i → rank j < rank i) (hnf : C01.NoFaults d)
+    (h : C01.Reach cfg d s) (hex : s.phase = .exited)
+    (args : List Arg) (body : List Node) (rets : List Ret) (oh : List Nat) (srcs : List Src)
+    (hw : Wired d (kept body rets) body) (hwf : WF (.mac args body rets oh srcs))
+    (hnd : NoDupH (.mac args body rets oh srcs))
+    (hmem : ∀ j, j < body.length → d.member j) (σ : St) (hreach : Reach (.mac args body rets oh srcs) σ)
+    (hin : ∀ i, i < args.length → σ.get .inp i ≠ .nd) :
+    ∃ σ', run (.mac args body rets oh srcs) σ = some σ' ∧ ∀ r x, rets[r]? = some x →
+      σ'.get .out r = retOf d (levelSem body (σ.get .inp)) (σ.get .inp) s.out x := by
+  obtain ⟨σ', h1, _, _, h4⟩ := C09_inline_history _ σ hwf hnd hreach hin
+  refine ⟨σ', h1, ?_⟩
+  intro r x hr
+  rw [C09_inline_any_schedule wf rank hrank hnf h hex args body rets oh srcs hw hwf hmem _ r x hr]
+  exact h4 r (by
+    simp only [Node.nout]
+    exact (List.getElem?_eq_some_iff.mp hr).1)
+
+/-- non-vacuity: `def M(self, x0): c0 = F0(a=x0); c1 = F1(a=x0, b=c0); return c1` — `x0` forks, its UI node
+(node 2) stays; both children on executors, completed in the order 0, 1 -/
+def exLevelBody : List Node := [.leaf 0 [.arg 0, .none, .none], .leaf 1 [.arg 0, .out 0 0, .none]]
+
+def exLevelF : Exec.FinDag :=
+  { n := 3, slots := [[[2], [], []], [[2], [0], []], []], down := [[1], [], [1, 0]], starters := [2],
+    onExec := [true, true, false], fails := [], rank := [1, 2, 0] }
+
+def exLevelActs : List Exec.Act :=
+  [.start, .deliver, .deliver, .complete 0, .deliver, .complete 1, .exit]
+
+example : exLevelF.check = true := by decide
+
+example : (Exec.runActs Exec.Cfg.repaired exLevelF.toDag (Exec.init exLevelF.toDag) exLevelActs).map
+    (fun s => (s.phase, s.doneLog)) = some (.exited, [2, 0, 1]) := by decide
+
+example : BridgeC09C01.Wired exLevelF.toDag (kept exLevelBody [.out 1 0]) exLevelBody := by
+  constructor
+  · intro j n hj
+    match j, hj with
+    | 0, hj => simp [exLevelBody] at hj; subst hj; decide
+    | 1, hj => simp [exLevelBody] at hj; subst hj; decide
+    | j + 2, hj => simp [exLevelBody] at hj
+  · intro i hi
+    simp only [exLevelBody, List.length_cons, List.length_nil] at hi
+    match i, hi with
+    | i + 2, _ =>
+      cases i with
+      | zero => decide
+      | succ i => simp [Exec.FinDag.toDag, exLevelF]
 
 /-! ## (b) by-value synchronisation -/
 
@@ -330,6 +401,8 @@ end PwVerif.C09
 #print axioms PwVerif.C09.C09_inline
 #print axioms PwVerif.C09.C09_inline_history
 #print axioms PwVerif.C09.C09_flatten
+#print axioms PwVerif.C09.C09_inline_any_schedule
+#print axioms PwVerif.C09.C09_run_eq_any_schedule
 #print axioms PwVerif.C09.C09_macro_eq_inlined
 #print axioms PwVerif.C09.C09_by_value_rerun
 #print axioms PwVerif.C09.C09_links_sync_partial
